@@ -122,13 +122,27 @@ def run(chk, S: Session):
                 r3.require(st is state, f"{cls}.{meth} state", "state passed through", f"{T.show(st, 2)}", JAC, cfg)
             if len(chk.samples) < 6:
                 chk.sample({"config": cfg, "fx": sf, "J": sj})
-    # consumers
-    for qual, handler_m, expect in ((ISO + ".IsotropicResidual", "calculate_trace_along_d", "matmul"), (BLOCK + ".BlockDiagResidual", "calculate_diagonal_along_d", "din,dn->di")):
-        cls = S.p.find_class(qual)
-        fn = cls.methods.get("linearize")
-        src = __import__("ast").unparse(fn) if fn else ""
-        ok = handler_m in src and (("linop @ rv.mean_flat" in src) if expect == "matmul" else (expect in src))
-        r1.require(ok, f"{qual.rsplit('.', 1)[1]} consumes {handler_m}", "consumer contracts the n_in axis of the block with the coefficient axis of the mean", "consumer does not match the handler layout", qual)
+    # consumers: the isotropic / block-diagonal residual linearisations contract the block with the mean in the handler's layout
+    from .c11 import _rfun_list, consumer_shapes, mk_res, strip_layout
+    from ..harness import mcalls
+    for qual, handler_m in ((ISO + ".IsotropicResidual", "calculate_trace_along_d"), (BLOCK + ".BlockDiagResidual", "calculate_diagonal_along_d")):
+        it = S.interp()
+        res = mk_res(it, 2, rfun=_rfun_list())
+        lin = it.instantiate(it.class_value(qual), [res], {}, "<harness>")
+        rv = A("rv")
+        out = call(it, method(it, lin, "linearize"), rv, A("lin_state"), damp=A("damp"), t=A("t"))
+        hs = mcalls(out, handler_m, A("jac"))
+        name = qual.rsplit(".", 1)[1]
+        if len(hs) != 1:
+            r1.fail(f"{name} consumes {handler_m}", f"{len(hs)} calls of the handler", qual)
+            continue
+        fx = T.mk("getitem", (hs[0], 0))
+        subs = [t for t in T.subterms(out) if t.op == "sub" and fx in list(T.subterms(t.args[0])) and T.mk("getitem", (hs[0], 1)) in list(T.subterms(t.args[1]))]
+        if not subs:
+            r1.unknown(f"{name} consumes {handler_m}", "offset f - J*m not found", qual)
+            continue
+        okc, det = consumer_shapes(name, hs[0], rv, subs[0])
+        r1.require(okc, f"{name} consumes {handler_m}", det, det, qual)
 
 
 def _vmap_args(it, vm_out):
